@@ -114,12 +114,21 @@ claim("C11", "other",
       "Kernels only: which pages and images get scheduled (closure over templates), redirect resolution, revision selection, image download, missing-page tolerance, greenlet interleavings and --no-images are NOT encoded; a change there is invisible to this check.",
       "SMT-backed symbolic execution (CrossHair/z3) of data kernels with a synthetic-wiki stub", "§4 C11")
 
+claim("C10", "translation_validation",
+      "The re2c-generated C++ scanner (_uscan.cc: enum, Scanner::found/bol/eol/newline, Scanner::scan with ~280 DFA states) is transpiled to Python from the current file on every run and executed symbolically: "
+      "whole texts of 0..2 (quick) / 0..3 (thorough) arbitrary code points plus 18 rule-head prefixes followed by symbolic code points must satisfy the tiling law verbatim, and an inductive one-step contract "
+      "(one scan() call on a window of 3 / 5 symbolic code points from a symbolic scanner state: previous two characters, last token type, last_ebad, tablemode >= 0, rowchar, pending section marker) must re-establish the "
+      "representation invariant with no read beyond the 32 sentinels. z3 decides every character-class comparison of the DFA, so a path stands for a class of inputs. The transpiled scanner is validated against a fresh "
+      "g++ build of the same file on the string literals of the repository's scanner/parser tests and on every solver model; one-step counterexamples are lifted through constructed histories (table openings, heading start) before they count.",
+      "The transpiler (vlib/re2c_transpile.py) understands exactly the C subset the file uses and refuses anything else (harness error); look-ahead beyond the window after the concrete prefixes and texts longer than the bound in the whole-text cubes are outside.",
+      "translation validation (C++ -> Python, checked against a fresh build) + SMT-backed symbolic execution (CrossHair/z3) of the transpiled DFA: tiling law and inductive step contract", "§4 C10")
+
 NA["C02"] = "structure law over the C++ scanner + 20 regex-driven passes: symbolic document shapes degenerate to enumerating concrete documents, no solver-decided bound of interest (DESIGN §5)"
 NA["C07"] = "losslessness is a law about document shapes x pass interactions: word identity, not word content, matters, so nothing in it is solver-relevant; making the shape symbolic degenerates into enumerating concrete documents (measured: the full 58-pass sequence under the tracer costs 0.7-4 s per path and no symbolic value reaches a branch), which is not this technique (DESIGN §4 C07)"
 NA["C08"] = "reportlab / odfpy / pdftk do the essential work (C code, floats, external processes); every input realizes immediately, nothing for a solver to decide (DESIGN §5)"
 NA["C09"] = "protection is done by backtracking regexes in CPython's C re engine (named back-reference, look-behind, lazy quantifiers): unsupported by CrossHair's regex model and by z3's RegLan; a hand-written model would not be the code (DESIGN §5)"
 
-PENDING = ["C01", "C03", "C04", "C05", "C06", "C07", "C10", "C11", "C12", "C13", "C14", "C17", "C18", "C19", "C20"]
+PENDING = []
 
 
 def main():
